@@ -251,7 +251,7 @@ func coqOptN(h *ethtypes.HexInteger) string {
 	if h == nil {
 		return "None"
 	}
-	return "(Some " + (*big.Int)(h).String() + ")"
+	return "(Some " + cv.CoqBytes((*big.Int)(h).Bytes()) + ")"
 }
 
 func coqTx(t *ethsigner.Transaction) string {
@@ -335,7 +335,7 @@ func oracleEntries(entry int, in []byte, chain int64) (string, []*elem, bool) {
 			if a != nil {
 				as = "(Some " + cv.CoqBytes(a) + ")"
 			}
-			parts = append(parts, fmt.Sprintf("(%s, %d, %s, %s, %s)", cv.CoqBytes(d), vB, r.String(), s.String(), as))
+			parts = append(parts, fmt.Sprintf("(%s, %d, %s, %s, %s)", cv.CoqBytes(d), vB, cv.CoqBytes(r.Bytes()), cv.CoqBytes(s.Bytes()), as))
 		}
 	}
 	return "[" + strings.Join(parts, "; ") + "]", l, typed
@@ -901,6 +901,26 @@ func main() {
 	keys = append(keys, mustKey(hex.EncodeToString(rk)))
 	chainsList := []int64{1337, 1, 0, 1 << 31, 1 << 53}
 
+	// large inputs (first, so that the round-robin sharding spreads them): a valid transaction with
+	// 60 KiB of data, and a list of many empty strings inside a long list header
+	{
+		t := fieldSets(r)[0]
+		t.Data = bytes.Repeat([]byte{0x5a}, 60000)
+		mode := 2
+		if thorough {
+			b := signBase(t, 1, keys[0], 1337)
+			g.addAll("valid:large-data", b.raw(), 1337, false)
+		}
+		b := signBase(t, mode, keys[0], 1337)
+		g.addAll("valid:large-data", b.raw(), 1337, false)
+		nEmpty := 3000 // the list decoder model is quadratic in the number of elements under vm_compute
+		if thorough {
+			nEmpty = 65533
+		}
+		big := append(append([]byte{0xf9}, byte(nEmpty>>8), byte(nEmpty)), bytes.Repeat([]byte{0x80}, nEmpty)...)
+		g.addAll("large:list-of-empty-strings", big, 1, false)
+		g.addAll("large:list-of-empty-strings", append([]byte{2}, big[:len(big)-1]...), 0, false)
+	}
 	// --- valid signed transactions in every mode, every field set ---
 	var bases []*base
 	fs := fieldSets(r)
@@ -996,18 +1016,6 @@ func main() {
 			}
 		}
 		g.addAll("random", b, []int64{1, 0, 1337}[r.Intn(3)], i%4 == 0)
-	}
-	// large inputs: a valid transaction with 60 KiB of data, and a 64 KiB run inside a list header
-	{
-		t := fs[0]
-		t.Data = bytes.Repeat([]byte{0x5a}, 60000)
-		for _, mode := range []int{1, 2} {
-			b := signBase(t, mode, keys[0], 1337)
-			g.addAll("valid:large-data", b.raw(), 1337, false)
-		}
-		big := append([]byte{0xf9, 0xff, 0xfd}, bytes.Repeat([]byte{0x80}, 65533)...)
-		g.addAll("large:65533-empty-strings", big, 1, true)
-		g.addAll("large:65533-empty-strings", append([]byte{2}, big[:65535]...), 0, true)
 	}
 	if err := g.w.Flush(); err != nil {
 		panic(err)
